@@ -729,6 +729,13 @@ class IntegroPINNCondition(Condition):
         self.integral_sampler = integral_sampler
 
         self.data_functions = self._setup_data_functions(data_functions, self.sampler)
+        # forward() evaluates on points of shape (n, 1, dim), the extra axis is for the
+        # integral points; data that was evaluated once on the (n, dim) points of a
+        # static sampler needs the same axis, otherwise it broadcasts over the points
+        for fn in self.data_functions:
+            values = self.data_functions[fn].fun
+            if isinstance(values, torch.Tensor) and values.dim() == 2:
+                self.data_functions[fn].fun = values.unsqueeze(1)
 
         if self.sampler.is_adaptive:
             self.last_unreduced_loss = None
